@@ -210,12 +210,35 @@ func (c *Ctx) Solve(timeoutMs int, par int, crossCheck bool) {
 			defer func() { <-sem }()
 			q := c.Query(o, true)
 			var r solveResult
-			if !crossCheck {
+			if !crossCheck && !o.Vacuity {
+				// stage 0: without the quantified assumptions (weaker premises: an unsat answer
+				// is a proof; most obligations do not need them and the solvers are much faster)
+				r0 := runSolvers(c.query(o, false, true), min(4000, timeoutMs), false, solvers[:1])
+				if r0.status == "unsat" {
+					r = r0
+					r.solver += " (ground premises)"
+				}
+			}
+			if o.Vacuity && !crossCheck {
+				// reachability: look for a witness of the ground part first (quantified premises make
+				// model finding slow; they only restrict further, see the fallback note below)
+				r0 := runSolvers(c.QueryNoQuant(o), timeoutMs, false, solvers[:2])
+				if r0.status == "sat" || r0.status == "unsat" {
+					r = r0
+					if r0.status == "sat" {
+						r.solver += " (ground part)"
+					}
+				}
+			}
+			if r.status != "unsat" && r.status != "sat" && !crossCheck {
 				// stage 1: the fastest solver alone; stage 2: race all three
 				r = runSolvers(q, min(2000, timeoutMs), false, solvers[:1])
 			}
-			if r.status == "" || r.status == "unknown" {
+			if (r.status == "" || r.status == "unknown") && !(o.Vacuity && !crossCheck) {
 				r = runSolvers(q, timeoutMs, crossCheck, solvers)
+			}
+			if r.status == "" {
+				r.status = "unknown"
 			}
 			o.Status, o.Solver, o.Ms = r.status, r.solver, r.ms
 			if r.status == "sat" {
@@ -256,4 +279,15 @@ func (c *Ctx) Solve(timeoutMs int, par int, crossCheck bool) {
 		}()
 	}
 	wg.Wait()
+}
+
+// QuickUnsat: is the formula unsatisfiable under the assumptions logged so far?
+// (short timeout, one solver; "don't know" counts as satisfiable)
+func (c *Ctx) QuickUnsat(f Term) bool {
+	if f.S == "false" {
+		return true
+	}
+	o := &Obligation{Unit: c.Unit, Name: "prune", logLen: len(c.log), goal: f}
+	r := runSolvers(c.query(o, false, true), 1500, false, solvers[:1])
+	return r.status == "unsat"
 }
